@@ -31,6 +31,9 @@ func init() {
 		Extras: []core.Extra{{
 			Name: "exhaustive-ab",
 			Run:  exhaustive,
+		}, {
+			Name: "queue-direct",
+			Run:  queueDirect,
 		}},
 		Shrink:   Shrinker(),
 		Parallel: true,
@@ -335,6 +338,9 @@ func classify(c core.Case, out []string) []string {
 	}
 	if g, w, u, _ := QueueGrowth(all); g > 0 {
 		ls = append(ls, "queue:grew")
+		if w >= 2 {
+			ls = append(ls, "queue:grew-wrapped-twice")
+		}
 		if w > 0 {
 			ls = append(ls, "queue:grew-wrapped")
 		}
